@@ -599,6 +599,9 @@ func c09R6(p *core.Program, r *core.Report, sc *scanClosure) {
 			if !strings.HasPrefix(cn, "strings.") {
 				continue
 			}
+			if cn == "strings.NewReader" {
+				continue // a reader over the text, like bytes.NewBuffer([]byte(s)): the scanner's source, nothing is altered
+			}
 			if cn == "strings.TrimLeft" && len(call.Args) == 2 && constStrIs(info, call.Args[1], "\n") {
 				if f := core.FieldOf(info, call.Args[0]); f != nil && f.Name() == "format" {
 					trimOK = true
